@@ -150,6 +150,12 @@ type SimConfig struct {
 	// KeepHeap: do not let unknown calls havoc anything (used by rules that
 	// only look at values, not at heap state).
 	NoHavoc bool
+	// NoWiden: loop-carried values keep their concrete terms on the last visit of a
+	// loop header (paths needing more iterations are cut instead of continuing with
+	// widened values).
+	NoWiden bool
+	// IndexEvents: record every run-time-checked index into a slice or string as an event.
+	IndexEvents bool
 	// MaxSteps bounds the total number of instructions simulated (default 20 million).
 	MaxSteps int
 	// MaxVisits: how often a block may be entered per activation (default 3:
@@ -186,6 +192,10 @@ func defaultPure(name string) bool {
 
 // Run enumerates the paths of fn. Parameters (and free variables) are symbols
 // named after them.
+// simulated records every function whose paths some rule enumerated in this run
+// (as a root or in place); `pikelint -coverage` lists the functions no path rule looked at.
+var simulated = map[*ssa.Function]bool{}
+
 func (p *Program) Simulate(fn *ssa.Function, cfg SimConfig, onPath func(*PathResult)) *Sim {
 	if cfg.MaxPaths == 0 {
 		cfg.MaxPaths = 1 << 18
@@ -202,6 +212,8 @@ func (p *Program) Simulate(fn *ssa.Function, cfg SimConfig, onPath func(*PathRes
 	if cfg.MaxSteps == 0 {
 		cfg.MaxSteps = 20_000_000
 	}
+	simulated[fn] = true
+	p.constAggregate(nil) // make the constant tables of this program current
 	s := &Sim{P: p, Cfg: cfg, onPath: onPath}
 	st := &State{heap: map[string]*Term{}, heapLoc: map[string]*Term{}, epoch: map[string]int{}, fresh: map[string]bool{},
 		facts: newFacts(cfg.IntBits), counter: map[string]int{}}
@@ -263,6 +275,9 @@ func (s *Sim) enterBlock(fr *Frame, st *State, b, pred *ssa.BasicBlock, k cont) 
 	if maxV == 0 {
 		maxV = 3
 	}
+	if n := loopTrip(b); n+1 > int64(maxV) {
+		maxV = int(n + 1) // a loop with a small constant trip count is followed to its end
+	}
 	if v > maxV {
 		s.LoopCuts++
 		return
@@ -283,7 +298,7 @@ func (s *Sim) enterBlock(fr *Frame, st *State, b, pred *ssa.BasicBlock, k cont) 
 				break
 			}
 			t := s.val(fr, st, phi.Edges[idx])
-			if v >= maxV && isLoopHeader(b) && !staticallyBounded(b) {
+			if v >= maxV && isLoopHeader(b) && !staticallyBounded(b) && !s.Cfg.NoWiden {
 				if last, ok := fr.lastPhi[phi]; ok && last.Key() != t.Key() {
 					// widen loop-carried values on the second visit
 					st.counter["widen"]++
@@ -314,32 +329,143 @@ func isLoopHeader(b *ssa.BasicBlock) bool {
 // (index < constant, or index < len of a fixed-size array literal); its iterations
 // are followed concretely instead of being widened.
 func staticallyBounded(b *ssa.BasicBlock) bool {
+	_, ok := headerTrip(b)
+	return ok
+}
+
+// maxTrip is the largest constant trip count that is unrolled.
+const maxTrip = 16
+
+// headerTrip: b is the header of a counting loop `i < N` with N a small constant
+// or the length of a fixed-size array.
+func headerTrip(b *ssa.BasicBlock) (int64, bool) {
 	if len(b.Instrs) == 0 {
-		return false
+		return 0, false
 	}
 	iff, ok := b.Instrs[len(b.Instrs)-1].(*ssa.If)
 	if !ok {
-		return false
+		return 0, false
 	}
 	bo, ok := iff.Cond.(*ssa.BinOp)
 	if !ok || bo.Op != token.LSS {
-		return false
+		return 0, false
 	}
-	if c, ok := bo.Y.(*ssa.Const); ok && c.Value != nil {
-		return c.Int64() <= 2
-	}
-	if call, ok := bo.Y.(*ssa.Call); ok {
-		if bi, ok := call.Call.Value.(*ssa.Builtin); ok && bi.Name() == "len" {
-			if n, ok := fixedLen(call.Call.Args[0]); ok {
-				return n <= 2
+	// the counter: a phi of this block advanced by one per iteration from a constant
+	ph, ok := bo.X.(*ssa.Phi)
+	rangeForm := false
+	if !ok {
+		// range loop: the header compares phi+1 (phi starts at -1)
+		if inc, isInc := bo.X.(*ssa.BinOp); isInc && inc.Op == token.ADD {
+			if c, isC := inc.Y.(*ssa.Const); isC && c.Value != nil && c.Int64() == 1 {
+				ph, ok = inc.X.(*ssa.Phi)
+				rangeForm = true
 			}
 		}
 	}
-	return false
+	if !ok || ph.Block() != b {
+		return 0, false
+	}
+	start := int64(-1 << 62)
+	stepOK := false
+	for _, e := range ph.Edges {
+		switch x := e.(type) {
+		case *ssa.Const:
+			if x.Value != nil {
+				start = x.Int64()
+			}
+		case *ssa.BinOp:
+			if c, ok := x.Y.(*ssa.Const); ok && x.Op == token.ADD && x.X == ph && c.Value != nil && c.Int64() == 1 {
+				stepOK = true
+			}
+		}
+	}
+	if rangeForm {
+		// the back edge carries the incremented value itself
+		for _, e := range ph.Edges {
+			if e == bo.X {
+				stepOK = true
+			}
+		}
+		if start != -1 {
+			return 0, false
+		}
+		start = 0
+	}
+	if !stepOK || start < 0 || start > 0 {
+		return 0, false
+	}
+	n := int64(-1)
+	if c, ok := bo.Y.(*ssa.Const); ok && c.Value != nil {
+		n = c.Int64()
+	}
+	if call, ok := bo.Y.(*ssa.Call); ok {
+		if bi, ok := call.Call.Value.(*ssa.Builtin); ok && bi.Name() == "len" {
+			if m, ok := fixedLen(call.Call.Args[0]); ok {
+				n = m
+			}
+		}
+	}
+	n -= start
+	if n < 0 || n > maxTrip {
+		return 0, false
+	}
+	return n, true
+}
+
+var loopTripMemo = map[*ssa.BasicBlock]int64{}
+
+// loopTrip: the largest constant trip count of a statically bounded loop that
+// block b belongs to (0 if none).
+func loopTrip(b *ssa.BasicBlock) int64 {
+	if n, ok := loopTripMemo[b]; ok {
+		return n
+	}
+	fn := b.Parent()
+	for _, x := range fn.Blocks {
+		loopTripMemo[x] = 0
+	}
+	for _, h := range fn.Blocks {
+		n, ok := headerTrip(h)
+		if !ok || !isLoopHeader(h) {
+			continue
+		}
+		// natural loop of h: blocks that reach a back edge of h without leaving through h
+		body := map[*ssa.BasicBlock]bool{h: true}
+		var work []*ssa.BasicBlock
+		for _, p := range h.Preds {
+			if h.Dominates(p) && !body[p] {
+				body[p] = true
+				work = append(work, p)
+			}
+		}
+		for len(work) > 0 {
+			x := work[len(work)-1]
+			work = work[:len(work)-1]
+			for _, p := range x.Preds {
+				if !body[p] {
+					body[p] = true
+					work = append(work, p)
+				}
+			}
+		}
+		for x := range body {
+			if n > loopTripMemo[x] {
+				loopTripMemo[x] = n
+			}
+		}
+	}
+	return loopTripMemo[b]
 }
 
 // fixedLen: v is a full slice of a fixed-size array allocated in this function.
 func fixedLen(v ssa.Value) (int64, bool) {
+	if ld, ok := v.(*ssa.UnOp); ok && ld.Op == token.MUL {
+		if g, ok := ld.X.(*ssa.Global); ok && constAggFor != nil {
+			if ca := constAggFor.constAggregate(g.Object()); ca != nil && !ca.array {
+				return int64(len(ca.elems)), true
+			}
+		}
+	}
 	sl, ok := v.(*ssa.Slice)
 	if !ok || sl.Low != nil || sl.High != nil {
 		return 0, false
@@ -462,6 +588,27 @@ func (s *Sim) load(st *State, addr *Term, typ types.Type) *Term {
 			return &Term{Op: "fld", Name: addr.Name, Obj: addr.Obj, Type: typ, Args: []*Term{whole}}
 		}
 	}
+	// an element of an array that was assigned as a whole
+	if addr.Op == "ia" && len(addr.Args) == 2 {
+		if whole, ok := st.heap[addr.Args[0].Key()]; ok && whole.Op == "arrayval" {
+			if i, ok := addr.Args[1].IntVal(); ok && i >= 0 && i < int64(len(whole.Args)) {
+				return whole.Args[i]
+			}
+		}
+	}
+	// a small array read as a whole: a snapshot of its cells
+	if at, ok := typ.Underlying().(*types.Array); ok && at.Len() <= maxTrip && addr.Op != "ia" {
+		snap := &Term{Op: "arrayval", Type: typ}
+		for i := int64(0); i < at.Len(); i++ {
+			snap.Args = append(snap.Args, s.load(st, &Term{Op: "ia", Type: types.NewPointer(at.Elem()), Args: []*Term{addr, intTerm(i)}}, at.Elem()))
+		}
+		return snap
+	}
+	if t := s.constTableLoad(st, addr, typ); t != nil {
+		st.heap[key] = t
+		st.heapLoc[key] = addr
+		return t
+	}
 	if s.rootFresh(st, addr) {
 		v = zeroTerm(typ)
 	} else {
@@ -479,8 +626,72 @@ func (s *Sim) load(st *State, addr *Term, typ types.Type) *Term {
 	return v
 }
 
+// constTableLoad resolves a read of a constant package-level table (see
+// constAggregate): the slice header of a slice table, or one element of an array
+// table at a constant index.
+func (s *Sim) constTableLoad(st *State, addr *Term, typ types.Type) *Term {
+	elem := func(v ssa.Value) *Term {
+		switch x := v.(type) {
+		case *ssa.Const:
+			return s.val(nil, st, x)
+		case *ssa.UnOp:
+			g := x.X.(*ssa.Global)
+			return s.load(st, s.val(nil, st, g), x.Type())
+		}
+		return nil
+	}
+	switch {
+	case addr.Op == "global":
+		ca := s.P.constAggregate(addr.Obj)
+		if ca == nil || ca.array {
+			return nil
+		}
+		backing := &Term{Op: "alloc", Name: "table:" + addr.Name, Type: typ}
+		for i, e := range ca.elems {
+			cell := &Term{Op: "ia", Args: []*Term{backing, intTerm(int64(i))}}
+			if _, ok := st.heap[cell.Key()]; !ok {
+				st.heap[cell.Key()] = elem(e)
+				st.heapLoc[cell.Key()] = cell
+			}
+		}
+		tableLen[backing.Key()] = int64(len(ca.elems))
+		none := &Term{Op: "none"}
+		return &Term{Op: "slice", Type: typ, Args: []*Term{backing, none, none, none}}
+	case addr.Op == "ia" && len(addr.Args) == 2 && addr.Args[0].Op == "global":
+		ca := s.P.constAggregate(addr.Args[0].Obj)
+		if ca == nil || !ca.array {
+			return nil
+		}
+		if i, ok := addr.Args[1].IntVal(); ok && i >= 0 && i < int64(len(ca.elems)) {
+			return elem(ca.elems[i])
+		}
+	}
+	return nil
+}
+
+// tableLen: length of the backing array of each constant slice table seen.
+var tableLen = map[string]int64{}
+
 func (s *Sim) store(st *State, addr, val *Term) {
 	key := addr.Key()
+	if addr.Op == "ia" && len(addr.Args) == 2 {
+		// an element written after the array was assigned as a whole
+		if whole, ok := st.heap[addr.Args[0].Key()]; ok && whole.Op == "arrayval" {
+			if i, ok := addr.Args[1].IntVal(); ok && i >= 0 && i < int64(len(whole.Args)) && val != nil {
+				nw := &Term{Op: "arrayval", Type: whole.Type, Args: append([]*Term{}, whole.Args...)}
+				nw.Args[i] = val
+				st.heap[addr.Args[0].Key()] = nw
+			} else {
+				delete(st.heap, addr.Args[0].Key())
+			}
+		}
+	}
+	if val != nil && val.Op == "arrayval" {
+		// a whole array assigned: its cells are the snapshot's from now on
+		for i := range val.Args {
+			delete(st.heap, (&Term{Op: "ia", Args: []*Term{addr, intTerm(int64(i))}}).Key())
+		}
+	}
 	st.heap[key] = val
 	st.heapLoc[key] = addr
 	// storing a whole struct: drop sub-cells
@@ -806,8 +1017,19 @@ func (s *Sim) simInstrs(fr *Frame, st *State, b *ssa.BasicBlock, from int, k con
 			}
 		case *ssa.IndexAddr:
 			fr.env[x] = &Term{Op: "ia", Type: x.Type(), Args: []*Term{sliceBase(s.val(fr, st, x.X)), s.val(fr, st, x.Index)}}
+			if _, isSlice := x.X.Type().Underlying().(*types.Slice); isSlice && s.Cfg.IndexEvents {
+				s.emit(st, fr, &Event{Kind: "index", Instr: x, Args: []*Term{s.val(fr, st, x.X), s.val(fr, st, x.Index)}})
+			}
 		case *ssa.Index:
-			fr.env[x] = &Term{Op: "idx", Type: x.Type(), Args: []*Term{s.val(fr, st, x.X), s.val(fr, st, x.Index)}}
+			base, idx := s.val(fr, st, x.X), s.val(fr, st, x.Index)
+			if isStringType(x.X.Type()) && s.Cfg.IndexEvents {
+				s.emit(st, fr, &Event{Kind: "index", Instr: x, Args: []*Term{base, idx}})
+			}
+			if i, ok := idx.IntVal(); ok && base.Op == "arrayval" && i >= 0 && i < int64(len(base.Args)) {
+				fr.env[x] = base.Args[i]
+			} else {
+				fr.env[x] = &Term{Op: "idx", Type: x.Type(), Args: []*Term{base, idx}}
+			}
 		case *ssa.Lookup:
 			t := &Term{Op: "lookup", Type: x.Type(), Args: []*Term{s.val(fr, st, x.X), s.val(fr, st, x.Index)}}
 			if x.CommaOk {
@@ -1054,7 +1276,18 @@ func (s *Sim) callEvent(fr *Frame, st *State, in ssa.Instruction, c *ssa.CallCom
 	if c.IsInvoke() {
 		ev.Kind = "invoke"
 		ev.Method = c.Method
-		ev.Args = append(ev.Args, s.val(fr, st, c.Value))
+		recv := s.val(fr, st, c.Value)
+		ev.Args = append(ev.Args, recv)
+		// the interface value was built in view from a known concrete value: the
+		// call is to that type's method
+		if recv.Op == "mkiface" && len(recv.Args) == 1 && recv.Args[0].Type != nil {
+			if _, isIface := recv.Args[0].Type.Underlying().(*types.Interface); !isIface {
+				if m := s.P.Prog.LookupMethod(recv.Args[0].Type, c.Method.Pkg(), c.Method.Name()); m != nil && m.Synthetic == "" {
+					ev.Kind, ev.Method, ev.Callee = "call", nil, m
+					ev.Args[0] = recv.Args[0]
+				}
+			}
+		}
 	} else if f := c.StaticCallee(); f != nil {
 		ev.Callee = f
 		if mc, ok := c.Value.(*ssa.MakeClosure); ok {
@@ -1068,6 +1301,15 @@ func (s *Sim) callEvent(fr *Frame, st *State, in ssa.Instruction, c *ssa.CallCom
 		ev.CalleeT = ct
 		if (ct.Op == "closure" || ct.Op == "func") && ct.Fn != nil {
 			ev.Callee = ct.Fn
+			// a method value x.M: call M on the receiver it was bound to
+			if strings.HasPrefix(ct.Fn.Synthetic, "bound method wrapper") && ct.Op == "closure" && len(ct.Args) == 1 {
+				if mo, ok := ct.Fn.Object().(*types.Func); ok {
+					if m := s.P.Prog.FuncValue(mo); m != nil {
+						ev.Callee, ev.CalleeT = m, nil
+						ev.Args = append(ev.Args, ct.Args[0])
+					}
+				}
+			}
 		} else {
 			ev.Kind = "dyncall"
 		}
@@ -1094,6 +1336,11 @@ func (s *Sim) builtin(fr *Frame, st *State, x *ssa.Call, ev *Event) *Term {
 		}
 		if n, ok := fixedLen(x.Call.Args[0]); ok && name == "len" {
 			return intTerm(n)
+		}
+		if a[0].Op == "slice" && a[0].Args[0].Op == "alloc" && a[0].Args[1].Op == "none" && a[0].Args[2].Op == "none" {
+			if n, ok := tableLen[a[0].Args[0].Key()]; ok {
+				return intTerm(n)
+			}
 		}
 		return &Term{Op: name, Type: x.Type(), Args: []*Term{a[0]}}
 	case "append":
@@ -1125,6 +1372,7 @@ func (s *Sim) call(fr *Frame, st *State, x *ssa.Call, b *ssa.BasicBlock, i int, 
 		return false
 	}
 	if ev.Callee != nil && ev.Callee.Blocks != nil && s.Cfg.Inline != nil && s.Cfg.Inline(ev.Callee, fr.depth) {
+		simulated[ev.Callee] = true
 		s.emit(st, fr, ev)
 		var fvs []*Term
 		if ev.CalleeT != nil && ev.CalleeT.Op == "closure" {
@@ -1188,6 +1436,7 @@ func (s *Sim) runDefers(fr *Frame, st *State, k func(*State)) {
 		s.runDefers(fr2, st2, k)
 	}
 	if d.fn != nil && d.fn.Blocks != nil && s.Cfg.Inline != nil && s.Cfg.Inline(d.fn, fr.depth) {
+		simulated[d.fn] = true
 		var fvs []*Term
 		if d.calT != nil && d.calT.Op == "closure" {
 			fvs = d.calT.Args
@@ -1287,6 +1536,14 @@ func inlineHelpersOf(root *ssa.Function) func(*ssa.Function, int) bool {
 		}
 		if inPkg(callee, "util") && callee.Name() == "NewError" {
 			return true
+		}
+		// a function literal written inside a helper moves with it
+		if callee.Parent() != nil {
+			top := callee
+			for top.Parent() != nil {
+				top = top.Parent()
+			}
+			return top != root && isHelper(top) && fnPkg(top) == rp
 		}
 		return isHelper(callee) && fnPkg(callee) == rp && callee != root
 	}
